@@ -283,7 +283,7 @@ func C06(c *core.Ctx) {
 			c.Decide(fr.OK, "R6.4", fmt.Sprintf("mutation-recomputes:%s:%s", core.FuncName(fn), what), c.Pos(in), "store to "+what+" is followed by updateNexthopsEnc of that entry on all exits", core.FuncName(fn)+" changes a route ("+what+") without recomputing the entry's next hops on some path: the FIB no longer mirrors the RIB")
 		})
 	}
-	c.Floor("R6.4", "route mutation stores", nMut, 5)
+	c.Floor("R6.4", "route mutation stores", nMut, 3)
 	// face removal → CleanUpFace
 	cu := ribCleanupWorker(p)
 	if cu == nil {
